@@ -7,6 +7,7 @@ package main
 
 import (
 	"fmt"
+	"go/token"
 	"go/types"
 	"os"
 	"slices"
@@ -659,6 +660,7 @@ func checkC10(c *Ctx) {
 	}
 
 	// C10.4 state mutators only after verification
+	c10CommaOkBlocks(c)
 	c.importFrom(checkC03, "C10.4", "C03.3", "C03.4", "C03.5")
 	c.importFrom(checkC07, "C10.4", "C07.4", "C07.5")
 	c.importFrom(checkC08, "C10.4", "C08.1")
@@ -747,4 +749,135 @@ func c10Panics(c *Ctx, scope map[*ssa.Function]bool) {
 		c.Violated("C10.2", key+": "+s.kind, s.pos, s.kind+" reachable from a network entry point and not on the reviewed exemption list")
 	}
 	c.Stat("panic_sites", len(sites))
+}
+
+// c10CommaOkBlocks (C10.5): a block obtained from a (block, found) look-up of the block store is used
+// only where found is known to be true. The look-ups are driven by hashes that peers choose (the
+// parent and certificate hash of a proposal, the hash of a vote), so "not found" is an input a
+// peer controls; the nil block that comes with it must not reach a dereference. Uses checked: the
+// block as receiver or argument of a call, and field access; passing both results on (return,
+// phi, store into a local that is re-tested) is not a use.
+func c10CommaOkBlocks(c *Ctx) {
+	p := c.P
+	blockPtr := "*" + modPath + ".Block"
+	n := 0
+	for _, fn := range p.ModFuncs {
+		if fn.Blocks == nil || strings.HasSuffix(p.FuncPos(fn), "_test.go") || strings.Contains(funcPkgPath(fn), "/twins") || strings.Contains(funcPkgPath(fn), "/internal/testutil") {
+			continue
+		}
+		if fn.Origin() != nil && fn.Origin() != fn {
+			continue
+		}
+		var fl *Flow
+		eachInstr(fn, func(in ssa.Instruction) {
+			ex, ok := in.(*ssa.Extract)
+			if !ok || ex.Index != 0 || ex.Type().String() != blockPtr {
+				return
+			}
+			call, ok := ex.Tuple.(*ssa.Call)
+			if !ok {
+				return
+			}
+			tup, ok := call.Type().(*types.Tuple)
+			if !ok || tup.Len() != 2 || !types.Identical(tup.At(1).Type(), types.Typ[types.Bool]) {
+				return
+			}
+			if fl == nil {
+				fl = NewFlow(p, fn)
+			}
+			okKey := fl.K.Key(call) + "#1"
+			var bad []string
+			nUse := 0
+			type visit struct {
+				v   ssa.Value
+				key string
+			}
+			seen := map[visit]bool{}
+			var uses func(v ssa.Value, okKey string)
+			uses = func(v ssa.Value, okKey string) {
+				if seen[visit{v, okKey}] || v.Referrers() == nil {
+					return
+				}
+				seen[visit{v, okKey}] = true
+				for _, r := range *v.Referrers() {
+					deref := false
+					switch x := r.(type) {
+					case ssa.CallInstruction:
+						deref = true
+					case *ssa.FieldAddr, *ssa.Field:
+						deref = true
+					case *ssa.UnOp:
+						deref = x.Op == token.MUL
+					case *ssa.Phi:
+						// the value merges with others: fine if on the edge it comes in on the look-up is known to have
+						// succeeded; otherwise the merged value is judged at its uses against the flag that is merged
+						// alongside it (`for ok && ... { cur, ok = Get(...) }`)
+						safe := true
+						for i, e := range x.Edges {
+							if e != v {
+								continue
+							}
+							ef := fl.AtEdge(x.Block().Preds[i], x.Block())
+							if !ef[Fact{"true", okKey, ""}] && !notNilOf(ef, is(fl.K.Key(v))) {
+								safe = false
+							}
+						}
+						if safe {
+							continue
+						}
+						partner := ""
+						for _, in2 := range x.Block().Instrs {
+							fp, isPhi := in2.(*ssa.Phi)
+							if !isPhi || fp == x || !types.Identical(fp.Type(), types.Typ[types.Bool]) {
+								continue
+							}
+							match := true
+							for i, e := range x.Edges {
+								if e == v && fl.K.Key(fp.Edges[i]) != okKey {
+									match = false
+								}
+							}
+							if match {
+								partner = fl.K.Key(fp)
+							}
+						}
+						if partner == "" {
+							bad = append(bad, p.InstrPos(x)+" (merged without its flag)")
+							continue
+						}
+						uses(x, partner)
+						continue
+					case *ssa.MakeInterface, *ssa.ChangeType:
+						if val, ok := r.(ssa.Value); ok {
+							uses(val, okKey)
+						}
+						continue
+					}
+					if !deref {
+						continue
+					}
+					// logging a possibly-nil block is harmless
+					if ci, ok := r.(ssa.CallInstruction); ok && ci.Common().IsInvoke() && strings.Contains(ci.Common().Value.Type().String(), "logging.Logger") {
+						continue
+					}
+					nUse++
+					facts := fl.At(r)
+					if !facts[Fact{"true", okKey, ""}] && !notNilOf(facts, is(fl.K.Key(v))) {
+						bad = append(bad, p.InstrPos(r))
+					}
+				}
+			}
+			uses(ex, okKey)
+			if nUse == 0 {
+				return
+			}
+			n++
+			c.Check(len(bad) == 0, "C10.5", shortName(fn)+": "+shortVal(fl.K.Key(call))+" used only when found", p.InstrPos(call),
+				itoa(nUse)+" use(s) of the looked-up block, all under found == true (or a nil test)",
+				"the block returned by the look-up is used at "+join(bad)+" where the look-up may have failed (nil block): a peer that names a block nobody has crashes the replica there")
+		})
+	}
+	if n < 8 {
+		c.Unresolved("C10.5", "block look-ups", "expected at least 8 (block, found) look-ups whose block is used; found "+itoa(n))
+	}
 }
